@@ -23,6 +23,8 @@ def mkargs(a):
     """args id -> the Python object a screen is scheduled with: 0 = None, odd = the int, even = a falsy (empty) object"""
     if not a:
         return None
+    if a % 4 == 3:
+        return (a, "args")            # a tuple (of length 2): whatever the framework formats or stores must cope with it
     if a % 2:
         return a
     obj = FalsyArgs(a)
@@ -36,6 +38,8 @@ _ARGS = {}
 def aid(args):
     if args is None:
         return 0
+    if isinstance(args, tuple):
+        return args[0] if (len(args) == 2 and args[1] == "args") else 9999
     if isinstance(args, FalsyArgs):
         # the callbacks must be handed the OBJECT the screen was scheduled with, not an equal copy of it
         return args.n if id(args) in _ARGS else 9000 + args.n
